@@ -251,6 +251,156 @@ func runWriter(c *core.Ctx, kind string, workers int, yield bool) {
 	}
 }
 
+// runManyBatches: a stream of several hundred batches in which one batch of the middle is overtaken by
+// hundreds of later ones (a slow formatting worker): the re-sequencing buffer of the writers has to
+// park that many chunks and still emit every batch once, in order.
+func runManyBatches(c *core.Ctx) {
+	kind := wrx.Kinds[c.Idx%len(wrx.Kinds)]
+	nb := []int{300, 520, 700, 1100}[c.Rng.Intn(4)]
+	late := 1 + c.Rng.Intn(nb/3)
+	behind := []int{255, 256, 257, 300, nb - late - 1}[c.Rng.Intn(5)]
+	if late+behind >= nb {
+		behind = nb - late - 1
+	}
+	var perm []int
+	for i := 0; i < nb; i++ {
+		if i == late {
+			continue
+		}
+		perm = append(perm, i)
+		if i == late+behind {
+			perm = append(perm, late)
+		}
+	}
+	sizes := make([]int, nb)
+	for i := range sizes {
+		sizes[i] = 1
+		if c.Rng.Intn(10) == 0 {
+			sizes[i] = 0
+		}
+	}
+	recs := wrx.Recs(c.Rng, itx.Sum(sizes), func() int { return 5 + c.Rng.Intn(20) })
+	parts := itx.Partition(recs, sizes)
+	bios := wrx.Bios(parts, kind == "fastq")
+	sink := wrx.NewSink()
+	label := fmt.Sprintf("many-batches:%s", kind)
+	c.Risk(label)
+	var rerr error
+	ok := c.Bounded(label, wd, func() {
+		rerr = wrx.Run(kind, bios, perm, sink, 1, false, true)
+		<-sink.Closed
+		obiiter.WaitForLastPipe()
+	})
+	if !ok {
+		return
+	}
+	c.Count("evaluations", 1)
+	c.Count("histories."+kind, 1)
+	c.Key("many/%s/%d/%d", kind, nb, behind)
+	det := map[string]any{"writer": kind, "batches": nb, "late_batch": late, "overtaken_by": behind, "records": len(recs)}
+	if c.Idx < 4 {
+		c.Sample(det)
+	}
+	if rerr != nil {
+		det["error"] = rerr.Error()
+		c.Violate("error:many-batches", "the writer returns an error", det)
+		return
+	}
+	out := sink.Snapshot()
+	var ids []string
+	switch kind {
+	case "fasta", "fastq":
+		var parsed []gen.FRec
+		var err error
+		if kind == "fasta" {
+			parsed, err = gen.ParseFasta(out)
+		} else {
+			parsed, err = gen.ParseFastq(out)
+		}
+		if err != nil {
+			det["error"] = err.Error()
+			c.Violate("records:many-batches:unparsable", "the output cannot be parsed", det)
+			return
+		}
+		ids = gen.IDsOf(parsed)
+	case "json":
+		var arr []map[string]any
+		if err := json.Unmarshal(out, &arr); err != nil {
+			det["error"] = err.Error()
+			det["tail"] = clip(out[max(0, len(out)-300):])
+			c.Violate("json-invalid:many-batches", "the JSON output is not a single valid array", det)
+			return
+		}
+		for _, o := range arr {
+			ids = append(ids, fmt.Sprint(o["id"]))
+		}
+	case "csv":
+		rows, err := csv.NewReader(bytes.NewReader(out)).ReadAll()
+		if err != nil || len(rows) == 0 {
+			c.Violate("csv-invalid:many-batches", "the CSV output does not parse / has no header", det)
+			return
+		}
+		for _, r := range rows[1:] {
+			ids = append(ids, r[0])
+		}
+	}
+	if d := itx.CompareSeq(ids, itx.IDs(recs)); d != "" {
+		det["got_records"] = len(ids)
+		c.Violate(kind+"-"+d+":many-batches", "the writer does not emit every batch exactly once in increasing batch number when one batch is overtaken by hundreds of others", det)
+	}
+}
+
+// runHugeParked: a few batches of very long records arriving with the first one last, so that tens of
+// megabytes (thorough tier: more than 64 MiB) of formatted output wait in the re-sequencing buffer.
+func runHugeParked(c *core.Ctx) {
+	kind := []string{"json", "fasta", "csv", "fastq"}[c.Idx%4]
+	per := c.Pick(2, 24) << 20
+	nb := 4
+	var parts [][]itx.Rec
+	var recs []itx.Rec
+	for i := 0; i < nb; i++ {
+		r := itx.Rec{ID: fmt.Sprintf("big%d", i), Seq: string(gen.DNA(c.Rng, per+c.Rng.Intn(1000))), K: i}
+		parts = append(parts, []itx.Rec{r})
+		recs = append(recs, r)
+	}
+	bios := wrx.Bios(parts, kind == "fastq")
+	sink := wrx.NewSink()
+	label := "huge-parked:" + kind
+	c.Risk(label)
+	var rerr error
+	ok := c.Bounded(label, 6*wd, func() {
+		rerr = wrx.Run(kind, bios, []int{1, 2, 3, 0}, sink, 1, false, true)
+		<-sink.Closed
+		obiiter.WaitForLastPipe()
+	})
+	if !ok {
+		return
+	}
+	c.Count("evaluations", 1)
+	c.Key("huge/%s/%d", kind, per>>20)
+	out := sink.Snapshot()
+	det := map[string]any{"writer": kind, "batches": nb, "bytes_per_record": per, "arrival": []int{1, 2, 3, 0}, "output_bytes": len(out)}
+	c.Sample(det)
+	if rerr != nil {
+		c.Violate("error:huge-parked", "the writer returns an error", det)
+		return
+	}
+	// every record once, in order: look for the identifiers in the output
+	pos := -1
+	for _, r := range recs {
+		i := bytes.Index(out, []byte(r.ID))
+		if i < 0 || i < pos || bytes.Count(out, []byte(r.ID)) != 1 {
+			det["record"] = r.ID
+			c.Violate(kind+"-records:huge-parked", "the writer does not emit every batch exactly once in increasing batch number when the parked batches are very large", det)
+			return
+		}
+		pos = i
+	}
+	if kind == "json" && !json.Valid(out) {
+		c.Violate("json-invalid:huge-parked", "the JSON output is not a single valid array", det)
+	}
+}
+
 func clip(b []byte) string {
 	if len(b) > 1500 {
 		return string(b[:700]) + " ... " + string(b[len(b)-700:])
@@ -270,6 +420,8 @@ func init() {
 		subs = append(subs, core.Sub{Name: kind + "-workers", N: core.Const(42, 840), Race: true, NRace: core.Const(14, 140),
 			Run: func(c *core.Ctx) { runWriter(c, kind, []int{2, 3, 8}[c.Idx%3], true) }})
 	}
+	subs = append(subs, core.Sub{Name: "many-batches", N: core.Const(16, 96), Run: runManyBatches})
+	subs = append(subs, core.Sub{Name: "huge-parked", N: core.Const(4, 4), Run: runHugeParked, Serial: true, TimeoutS: 1800})
 	subs = append(subs, core.Sub{Name: "tofile", N: core.Const(50, 500), Run: runToFile})
 	core.Register(&core.Property{
 		ID:    "C04",
